@@ -102,6 +102,17 @@ class ThreadServerEvents(_LoopBase):
                  z3.BoolVal(all((p[2] == "refused") == any(d[1].ref == p[1].ref for d in den) for p in proc)))]
         for d in den:
             post.append(("the refusal carries a non-empty reason", z3.Length(d[2].e) > 0 if isinstance(d[2], VStr) else z3.BoolVal(False)))
+        # C05 (a stalled peer must not strand a worker when a timeout is configured): the accepted socket gets the configured COMMTIMEOUT
+        # before the job is offered to the pool - the handshake read is already covered by it
+        ct = z3.Const("config_COMMTIMEOUT", RealS)
+        for j in jobs:
+            raw = j[2]
+            evs = st.events
+            ji = evs.index(j)
+            before = [e for e in evs[:ji] if e[0] == "sock.settimeout" and isinstance(raw, VObj) and isinstance(e[1], VObj) and e[1].ref == raw.ref]
+            ok = bool(before) and isinstance(before[-1][2], VReal) and z3.eq(before[-1][2].e, ct)
+            post.append(("with COMMTIMEOUT configured, the accepted socket carries it before its job exists (so from the first handshake byte on)",
+                         z3.Implies(ct != 0, z3.BoolVal(ok))))
         return post
 
     def exc_fields(self, E, st, a, qname, exc):
